@@ -25,7 +25,7 @@ RULE = (
     "depth 4 (quick; thorough adds depth 5 restricted to histories whose non-final operations are all legal), "
     "each replayed on a fresh System; checks after the last operation; 'assemble' is enabled only when the "
     "dependency closure of the registered contributions is registered; one case per (depth, first two letters). "
-    "pair part: 23 contribution types (bodies, moving frame, 6 joints, forces/moments, force laws in both forms, "
+    "pair part: 26 contribution types (bodies, moving frame, 6 joints, forces/moments, force laws in both forms, "
     "Maxwell, Motor/PD/PID, contacts, rod, synthetic), each alone and every unordered pair in both registration "
     "orders, assembled twice. A case is non-trivial if at least one of its histories ends in a state-changing "
     "operation or an assemble whose evaluations were compared"
@@ -61,16 +61,19 @@ def cases(tier, seed):
     nl = len(LETTERS)
     for i in range(nl):
         out.append({"kind": "hist", "depth": 1, "prefix": [i], "seed": seed, "nstates": 2})
-    maxd = 4
-    for d in range(2, maxd + 1):
+    def hist(d):
         for i in range(nl):
             for j in range(nl):
                 out.append({"kind": "hist", "depth": d, "prefix": [i, j], "seed": seed, "nstates": 1 if tier == "quick" else 2})
+
+    hist(2)
+    hist(3)
     names = pair_type_names()
     for a in names:
         out.append({"kind": "pair", "types": [a], "seed": seed})
     for a, b in itertools.permutations(names, 2):
         out.append({"kind": "pair", "types": [a, b], "seed": seed})
+    hist(4)
     if tier != "quick":
         for i in range(nl):
             for j in range(nl):
@@ -297,7 +300,13 @@ def check_evals(system, items, L, tot, states, fails, data, stats):
             if not err <= TOL * scale:
                 fails.append({"site": f"System.{name} != dense reference scatter", "msg": f"max err {err:.3e} (scale {scale:.2e}), state {si}; history {data['history']}",
                               "data": dict(data, method=name, err=err, state=si)})
-        # step_callback
+    return n
+
+
+def check_step_callback(system, items, L, states, fails, data):
+    """last check of a history: step callbacks may be stateful (Sphere2Sphere updates its reference contact basis)"""
+    n = 0
+    for S in states:
         qr, ur, ncb = sc.ref_step_callback(items, L, S)
         try:
             qg, ug = system.step_callback(S.t, S.q.copy(), S.u.copy())
@@ -357,6 +366,9 @@ def run_history(hist, seed, nstates, fails, stats, legal_prefix_only=False):
                 for S, old in zip(states, run.snap[1]):
                     compare_snap(old, sys_evals(run.sys, S), fails, data, "evaluations")
                 stats["n_reassemble_compared"] = stats.get("n_reassemble_compared", 0) + 1
+            if ok:
+                evals += check_step_callback(run.sys, items, L, states, fails, data)
+            if run.snap is not None:
                 return evals, True, "assemble:again"
             return evals, True, "assemble:first" if run.n_assembled == 1 else "assemble:after_change"
 
@@ -473,6 +485,8 @@ def check_pair(case):
     for S, old in zip(states, snap[1]):
         compare_snap(old, sys_evals(system, S), fails, data2, "evaluations")
     stats["n_reassemble_compared"] = 1
+    if ok:
+        evals += check_step_callback(system, items, L, states, fails, data2)
     return {"fails": _dedup(fails), "nontrivial": True, "evals": evals + 1, "outcome": "pair:ok", "stats": stats, "states": 3, "transitions": 2}
 
 
